@@ -1,0 +1,198 @@
+//go:build verif
+
+package klog
+
+// Machine-checked contracts for package klog. This file contains comments only; it is compiled
+// (to nothing) only under the build tag `verif` and is read by the verification tooling, which
+// generates proof obligations from the real function bodies on every run.
+
+// ---------------------------------------------------------------------------------------------
+// Type invariants (established wherever a value is converted to an interface, assumed wherever
+// it is taken out of one; the types are immutable after construction).
+
+//@ type time invariant 0 <= self.hour && self.hour <= 23 && 0 <= self.minute && self.minute <= 59 && -1 <= self.dayShift && self.dayShift <= 1
+//@ type date invariant 0 <= self.year && self.year <= 9999 && validdate(self.year, self.month, self.day)
+//@ type shouldTotal invariant typeis(self.Duration, *duration)
+//@ type timeRange invariant typeis(self.start, *time) && typeis(self.end, *time) && off(self.end) >= off(self.start)
+//@ type openRange invariant typeis(self.start, *time)
+
+// ---------------------------------------------------------------------------------------------
+// Specification functions
+
+//@ spec off(t Time) int = 1440*t.(*time).dayShift + 60*t.(*time).hour + t.(*time).minute
+//@ spec offp(t *time) int = 1440*t.dayShift + 60*t.hour + t.minute
+//@ spec fits(n int) bool = -9223372036854775807 <= n && n <= 9223372036854775807
+//@ spec small(n int) bool = -4611686018427387904 <= n && n <= 4611686018427387904
+//@ spec ddn(d Date) int = dn(d.(*date).year, d.(*date).month, d.(*date).day)
+
+// ---------------------------------------------------------------------------------------------
+// Duration
+
+//@ func NewDurationWithFormat
+//@ requires fits(amountHours) && fits(amountMinutes) && fits(amountHours*60) && fits(amountHours*60 + amountMinutes)
+//@ ensures typeis(result, *duration) && fresh(result) && result.(*duration).minutes == amountHours*60 + amountMinutes && result.(*duration).format == format
+
+//@ func NewDuration
+//@ requires fits(amountHours) && fits(amountMinutes) && fits(amountHours*60) && fits(amountHours*60 + amountMinutes)
+//@ ensures typeis(result, *duration) && fresh(result) && result.(*duration).minutes == amountHours*60 + amountMinutes && result.(*duration).format == DurationFormat{false, 0}
+
+//@ func (duration).Plus
+//@ requires nonnil(additional) && fits(d.minutes) && fits(additional.InMinutes()) && fits(d.minutes + additional.InMinutes())
+//@ ensures typeis(result, *duration) && fresh(result) && result.(*duration).minutes == d.minutes + additional.InMinutes()
+
+//@ func (duration).Minus
+//@ requires nonnil(deductible) && fits(d.minutes) && fits(deductible.InMinutes()) && fits(d.minutes - deductible.InMinutes())
+//@ ensures typeis(result, *duration) && fresh(result) && result.(*duration).minutes == d.minutes - deductible.InMinutes()
+
+// NewDurationFromString: accepted iff the text has the duration shape, at least one part, and
+// minutes < 60 when hours are present; the value is sign * (60*hours + minutes).
+//@ func NewDurationFromString
+//@ let m = matches(durationPattern, hhmm)
+//@ let sg = group(durationPattern, hhmm, 1)
+//@ let hs = group(durationPattern, hhmm, 3)
+//@ let ms = group(durationPattern, hhmm, 5)
+//@ let hasH = len(hs) > 0
+//@ let hasM = len(ms) > 0
+//@ let H = ite(hasH, num(hs), 0)
+//@ let M = ite(hasM, num(ms), 0)
+//@ let sign = ite(sg == "-", -1, 1)
+//@ let valid = m && (hasH || hasM) && implies(hasH, M < 60)
+//@ ensures (result1 == nil) == valid
+//@ ensures implies(valid, typeis(result0, *duration) && result0.(*duration).minutes == sign*(60*H + M))
+//@ ensures implies(valid, result0.(*duration).format.ForcePlus == (sg == "+"))
+//@ ensures implies(valid, result0.(*duration).format.ZeroSign == ite(H == 0 && M == 0 && len(sg) > 0, sign, 0))
+//@ ensures implies(!valid, isnil(result0))
+
+// ---------------------------------------------------------------------------------------------
+// Time
+
+//@ func newTime
+//@ requires -1 <= dayShift && dayShift <= 1
+//@ let ok = (0 <= hour && hour <= 23 && 0 <= minute && minute <= 59) || (hour == 24 && minute == 0 && dayShift <= 0)
+//@ ensures (result1 == nil) == ok
+//@ ensures implies(ok, typeis(result0, *time) && off(result0) == 1440*dayShift + 60*hour + minute && result0.(*time).format == format && fresh(result0))
+//@ ensures implies(!ok, isnil(result0))
+
+//@ func NewTime
+//@ let ok = (0 <= hour && hour <= 23 && 0 <= minute && minute <= 59) || (hour == 24 && minute == 0)
+//@ ensures (result1 == nil) == ok
+//@ ensures implies(ok, typeis(result0, *time) && off(result0) == 60*hour + minute && result0.(*time).format.Use24HourClock)
+//@ ensures implies(!ok, isnil(result0))
+
+//@ func NewTimeYesterday
+//@ let ok = (0 <= hour && hour <= 23 && 0 <= minute && minute <= 59) || (hour == 24 && minute == 0)
+//@ ensures (result1 == nil) == ok
+//@ ensures implies(ok, typeis(result0, *time) && off(result0) == -1440 + 60*hour + minute && result0.(*time).format.Use24HourClock)
+//@ ensures implies(!ok, isnil(result0))
+
+//@ func NewTimeTomorrow
+//@ let ok = 0 <= hour && hour <= 23 && 0 <= minute && minute <= 59
+//@ ensures (result1 == nil) == ok
+//@ ensures implies(ok, typeis(result0, *time) && off(result0) == 1440 + 60*hour + minute && result0.(*time).format.Use24HourClock)
+//@ ensures implies(!ok, isnil(result0))
+
+// NewTimeFromString: the specification's rules for time literals.
+//@ func NewTimeFromString
+//@ let m = matches(timePattern, hhmm)
+//@ let lt = group(timePattern, hhmm, 1) == "<"
+//@ let gt = group(timePattern, hhmm, 5) == ">"
+//@ let hh = num(group(timePattern, hhmm, 2))
+//@ let mm = num(group(timePattern, hhmm, 3))
+//@ let ap = group(timePattern, hhmm, 4)
+//@ let is12 = ap == "am" || ap == "pm"
+//@ let h24 = ite(is12, ite(ap == "am", ite(hh == 12, 0, hh), ite(hh == 12, 12, hh + 12)), hh)
+//@ let shift = ite(lt, -1, ite(gt, 1, 0))
+//@ let valid = m && !(lt && gt) && mm <= 59 && ite(is12, 1 <= hh && hh <= 12, hh <= 23 || (hh == 24 && mm == 0 && !gt))
+//@ ensures (result1 == nil) == valid
+//@ ensures implies(valid, typeis(result0, *time) && off(result0) == 1440*shift + 60*h24 + mm && result0.(*time).format.Use24HourClock == !is12)
+//@ ensures implies(!valid, isnil(result0))
+
+//@ func NewTimeFromGo
+//@ ensures typeis(result, *time) && off(result) == 60*gotime_hour(t) + gotime_minute(t)
+
+//@ func (*time).MidnightOffset
+//@ ensures typeis(result, *duration) && result.(*duration).minutes == offp(t)
+
+//@ func (*time).IsEqualTo
+//@ requires nonnil(otherTime)
+//@ ensures result == (offp(t) == off(otherTime))
+
+//@ func (*time).IsAfterOrEqual
+//@ requires nonnil(otherTime)
+//@ ensures result == (offp(t) >= off(otherTime))
+
+// Plus: the time that many minutes later if it lies between the start of the previous and the
+// end of the next day, an error otherwise.
+//@ func (*time).Plus
+//@ requires nonnil(d) && small(d.InMinutes())
+//@ let sum = offp(t) + d.InMinutes()
+//@ ensures (result1 == nil) == (-1440 <= sum && sum < 2880)
+//@ ensures implies(result1 == nil, typeis(result0, *time) && off(result0) == sum && result0.(*time).format == t.format)
+//@ ensures implies(result1 != nil, isnil(result0))
+
+// ---------------------------------------------------------------------------------------------
+// Range
+
+//@ func NewRangeWithFormat
+//@ requires nonnil(start) && nonnil(end)
+//@ ensures (result1 == nil) == (off(end) >= off(start))
+//@ ensures implies(result1 == nil, typeis(result0, *timeRange) && fresh(result0) && result0.(*timeRange).start == start && result0.(*timeRange).end == end && result0.(*timeRange).format == format)
+//@ ensures implies(result1 != nil, isnil(result0))
+
+//@ func NewRange
+//@ requires nonnil(start) && nonnil(end)
+//@ ensures (result1 == nil) == (off(end) >= off(start))
+//@ ensures implies(result1 == nil, typeis(result0, *timeRange) && fresh(result0) && result0.(*timeRange).start == start && result0.(*timeRange).end == end)
+//@ ensures implies(result1 != nil, isnil(result0))
+
+//@ func (*timeRange).Duration
+//@ ensures typeis(result, *duration) && result.(*duration).minutes == off(tr.end) - off(tr.start) && result.(*duration).minutes >= 0
+
+//@ func NewOpenRangeWithFormat
+//@ requires nonnil(start)
+//@ ensures typeis(result, *openRange) && fresh(result) && result.(*openRange).start == start && result.(*openRange).format == format
+
+// ---------------------------------------------------------------------------------------------
+// Date
+
+//@ func civil2Date
+//@ let ok = validdate(cd.Year, int(cd.Month), cd.Day) && 0 <= cd.Year && cd.Year <= 9999
+//@ ensures (result1 == nil) == ok
+//@ ensures implies(ok, typeis(result0, *date) && fresh(result0) && result0.(*date).year == cd.Year && result0.(*date).month == int(cd.Month) && result0.(*date).day == cd.Day && result0.(*date).format == format)
+//@ ensures implies(!ok, isnil(result0))
+
+//@ func NewDate
+//@ let ok = validdate(year, month, day) && 0 <= year && year <= 9999
+//@ ensures (result1 == nil) == ok
+//@ ensures implies(ok, typeis(result0, *date) && result0.(*date).year == year && result0.(*date).month == month && result0.(*date).day == day && result0.(*date).format.UseDashes)
+//@ ensures implies(!ok, isnil(result0))
+
+//@ func NewDateFromGo
+//@ requires 0 <= gotime_year(t) && gotime_year(t) <= 9999
+//@ ensures typeis(result, *date) && result.(*date).year == gotime_year(t) && result.(*date).month == gotime_month(t) && result.(*date).day == gotime_day(t)
+
+//@ func (*date).IsEqualTo
+//@ requires nonnil(otherDate)
+//@ ensures result == (ddn(otherDate) == dn(d.year, d.month, d.day))
+
+//@ func (*date).IsAfterOrEqual
+//@ requires nonnil(otherDate)
+//@ ensures result == (dn(d.year, d.month, d.day) >= ddn(otherDate))
+
+// PlusDays: panics exactly when the result is outside the years 0000..9999 (a precondition for callers).
+//@ func (*date).PlusDays
+//@ requires 0 <= dn(d.year, d.month, d.day) + dayIncrement && dn(d.year, d.month, d.day) + dayIncrement <= 3652424
+//@ ensures typeis(result, *date) && ddn(result) == dn(d.year, d.month, d.day) + dayIncrement && result.(*date).format == d.format
+
+//@ func (*date).Weekday
+//@ ensures 1 <= result && result <= 7 && emod(result, 7) == emod(dn(d.year, d.month, d.day) + 6, 7)
+
+// ---------------------------------------------------------------------------------------------
+// Entries and records
+
+//@ spec edur(e Entry) int = ite(typeis(e.value, *timeRange), off(e.value.(*timeRange).end) - off(e.value.(*timeRange).start), ite(typeis(e.value, *duration), e.value.(*duration).minutes, ite(typeis(e.value, shouldTotal), e.value.(shouldTotal).Duration.(*duration).minutes, 0)))
+//@ spec ekind(e Entry) bool = typeis(e.value, *timeRange) || typeis(e.value, *duration) || typeis(e.value, *openRange) || typeis(e.value, shouldTotal)
+
+//@ func (*Entry).Duration
+//@ requires ekind(*e)
+//@ ensures typeis(result, *duration) && result.(*duration).minutes == edur(*e)
